@@ -185,3 +185,17 @@ package secec
 //@   ensures (result1 == nil) ==> abs(result0.point) == ecdsa_recQ(fn(os2ip(digest[0:32])), val(r), val(s), ptxy(atom(fp(recx(val(r), recoveryID))), recoveryID % 2))
 //@   ensures (result1 != nil) ==> result0 == nil
 //@   fresh result0
+//@
+//@ func (*PublicKey).Equal
+//@   props C10 C07
+//@   inline
+//@
+//@ func (*PublicKey).Verify
+//@   props C07
+//@   split nil opts
+//@   requires !isnil(opts) ==> (opts.Hash >= 0 && opts.Hash <= 19)
+//@   ensures isnil(opts) ==> (result <==> (dersig(sig) && len(digest) >= 32 && ecdsa_ok(fn(os2ip(digest[0:32])), fn(dersig_r(sig)), fn(dersig_s(sig)), abs(k.point))))
+//@   ensures (!isnil(opts) && opts.Encoding == 0) ==> (result <==> (len(digest) == hashsize(opts.Hash) && dersig(sig) && (!opts.RejectMalleable || dersig_s(sig) <= HALFN) && len(digest) >= 32 && ecdsa_ok(fn(os2ip(digest[0:32])), fn(dersig_r(sig)), fn(dersig_s(sig)), abs(k.point))))
+//@   ensures (!isnil(opts) && opts.Encoding == 1) ==> (result <==> (len(digest) == hashsize(opts.Hash) && len(sig) == 64 && os2ip(sig[0:32]) >= 1 && os2ip(sig[0:32]) < N && os2ip(sig[32:64]) >= 1 && os2ip(sig[32:64]) < N && (!opts.RejectMalleable || os2ip(sig[32:64]) <= HALFN) && len(digest) >= 32 && ecdsa_ok(fn(os2ip(digest[0:32])), fn(os2ip(sig[0:32])), fn(os2ip(sig[32:64])), abs(k.point))))
+//@   ensures (!isnil(opts) && opts.Encoding == 2) ==> (result <==> (len(digest) == hashsize(opts.Hash) && len(sig) == 65 && os2ip(sig[0:32]) >= 1 && os2ip(sig[0:32]) < N && os2ip(sig[32:64]) >= 1 && os2ip(sig[32:64]) < N && (!opts.RejectMalleable || os2ip(sig[32:64]) <= HALFN) && len(digest) >= 32 && sig[64] < 4 && recx(fn(os2ip(sig[0:32])), sig[64]) < P && issq(pow(atom(fp(recx(fn(os2ip(sig[0:32])), sig[64]))), 3) + 7) && ecdsa_recQ(fn(os2ip(digest[0:32])), fn(os2ip(sig[0:32])), fn(os2ip(sig[32:64])), ptxy(atom(fp(recx(fn(os2ip(sig[0:32])), sig[64]))), sig[64] % 2)) != O && lift(affx(ecdsa_recQ(fn(os2ip(digest[0:32])), fn(os2ip(sig[0:32])), fn(os2ip(sig[32:64])), ptxy(atom(fp(recx(fn(os2ip(sig[0:32])), sig[64]))), sig[64] % 2)))) == lift(affx(abs(k.point))) && lift(affy(ecdsa_recQ(fn(os2ip(digest[0:32])), fn(os2ip(sig[0:32])), fn(os2ip(sig[32:64])), ptxy(atom(fp(recx(fn(os2ip(sig[0:32])), sig[64]))), sig[64] % 2)))) == lift(affy(abs(k.point)))))
+//@   ensures (!isnil(opts) && opts.Encoding != 0 && opts.Encoding != 1 && opts.Encoding != 2) ==> !result
